@@ -23,10 +23,20 @@ import (
 //	        before the end of the n-th frame of a connection (close or reset), optional listener outage between phases
 //	sac     queue mode drained by the client's own SendAndClear: concurrent enqueues, several frames per flush
 //	        (bufio overflow pushes in the middle of frames), cut scripts, listener outage
-//	qfull   queue mode, bounded queue filled beyond its capacity (sequential)
+//	qfull   queue mode (SendAndClear), capacities 1..4: a backlog exactly at capacity, then one more send through EVERY
+//	        entry point (Send, SendFlush false/true); the capacity grows, shrinks below the backlog and becomes
+//	        unbounded (by field and by ApplyConfig) while packs are queued
 //	worker  queue mode drained by the client's own background worker: concurrent enqueues, cut scripts
 //	wout    worker mode with a listener outage: the worker is parked in its k-th refused dial while the listener returns
-//	wfull   worker mode, bounded queue filled while the worker is parked inside a send
+//	wfull   worker mode, backlog at capacity + every entry point while the drainer is busy: parked inside a send, or
+//	        inside a refused dial during a listener outage; capacity changed while it is parked
+//	reconf  configuration changes between sends, all three modes: default license changed (and changed back) by
+//	        assignment and by ApplyConfig (which drops the connection and re-dials; the server list points away until
+//	        it is assigned again), sends with and without per-send license before, between and after
+//
+// Every generator hands its packs over through all public entry points (Send, SendFlush(false), SendFlush(true)) and
+// with plain and decorated per-send options; direct, fault, sac and worker also change the configuration between
+// their phases.
 
 const parallel = 4
 
@@ -94,11 +104,12 @@ func Run(c *core.Ctx) error {
 	var js []job
 	js = append(js, mk("wout", c.Pick(1, 6), genWout)...) // slow (the client sleeps 5 s after a refused dial): first
 	js = append(js, mk("worker", c.Pick(4, 24), genWorker)...)
-	js = append(js, mk("wfull", c.Pick(1, 4), genWfull)...)
+	js = append(js, mk("wfull", c.Pick(3, 9), genWfull)...)
+	js = append(js, mk("reconf", c.Pick(12, 48), genReconf)...)
 	js = append(js, mk("direct", c.Pick(10, 60), genDirect)...)
 	js = append(js, mk("fault", c.Pick(24, 200), genFault)...)
 	js = append(js, mk("sac", c.Pick(10, 80), genSac)...)
-	js = append(js, mk("qfull", c.Pick(3, 12), genQfull)...)
+	js = append(js, mk("qfull", c.Pick(8, 24), genQfull)...)
 	run(tm, parallel, js)
 	return nil
 }
@@ -165,9 +176,16 @@ func genPacksFrom(sc *scenario, r *rand.Rand, next *int, senders []int, per int,
 			case 1:
 				ps.lic = sc.lics[2]
 			case 2:
-				if r.Intn(3) == 0 {
-					ps.lic = sc.deflic // an override equal to the default
+				switch r.Intn(6) {
+				case 0, 1:
+					ps.lic = sc.deflic // an override equal to the (initial) default
+				case 2:
+					ps.lic = sc.lics[3] // an override equal to a license the default may change to
 				}
+			}
+			ps.via = r.Intn(3)
+			if r.Intn(4) == 0 {
+				ps.style = 1
 			}
 			ps.expect()
 			out[i] = append(out[i], ps)
@@ -245,6 +263,47 @@ func (sc *scenario) cutCurrent(kind string) {
 	n := int(atomic.LoadInt32(&sc.connOK))
 	if cr := sc.col.conn(n - 1); cr != nil && !isDone(cr) {
 		cr.cutNow(kind)
+	}
+}
+
+// otherLic picks a default license different from the current one (often the initial one: changed back).
+func (sc *scenario) otherLic(r *rand.Rand) string {
+	c := []string{sc.lics[0], sc.lics[0], sc.lics[3], sc.lics[4], sc.lics[1]}
+	for {
+		if l := c[r.Intn(len(c))]; l != sc.curLic {
+			return l
+		}
+	}
+}
+
+// reconfStep changes the default license between two phases: by assignment, or (allowApply) by ApplyConfig, after
+// which the server list points away from the collector until it is assigned again; `away` (may be nil) hands packs
+// over in between.
+func (sc *scenario) reconfStep(r *rand.Rand, allowApply bool, away func()) {
+	lic := sc.otherLic(r)
+	if allowApply && r.Intn(2) == 0 {
+		sc.reconf("apply", lic, 0, false)
+		if away != nil && r.Intn(2) == 0 {
+			away()
+		}
+		sc.serversBack()
+		return
+	}
+	sc.reconf("field", lic, sc.curCap, true)
+}
+
+// overflow hands `n` packs over, one through each entry point in turn (starting with `first`).
+func (sc *scenario) overflow(r *rand.Rand, n, first int) {
+	for i, p := range sc.more(r, 0, n, smallSize) {
+		p.via = (first + i) % 3
+		sc.send(p)
+	}
+}
+
+// fillTo hands packs over until the queue holds `n` of them (sequential: the drainer is not running or parked).
+func (sc *scenario) fillTo(r *rand.Rand, n int) {
+	for i := 0; i < 64 && sc.cl.Queue.Size() < n; i++ {
+		sc.send(sc.more(r, 0, 1, smallSize)[0])
 	}
 }
 
@@ -450,7 +509,19 @@ func genDirect(r *rand.Rand, gen string, cas int) *scenario {
 		size = mediumSize
 	}
 	per := (total + senders - 1) / senders
-	sc.runAll(sc.batch(r, senders, per, size))
+	packs := sc.batch(r, senders, per, size)
+	if cas%3 != 2 {
+		sc.runAll(packs)
+		return sc
+	}
+	// two concurrent phases with a configuration change between them
+	first, second := make([][]*packSpec, len(packs)), make([][]*packSpec, len(packs))
+	for i, ps := range packs {
+		first[i], second[i] = ps[:len(ps)/2], ps[len(ps)/2:]
+	}
+	sc.runAll(first)
+	sc.reconfStep(r, true, func() { sc.runAll(sc.batch(r, 1, 2, smallSize)) })
+	sc.runAll(second)
 	return sc
 }
 
@@ -488,6 +559,9 @@ func genFault(r *rand.Rand, gen string, cas int) *scenario {
 		sc.listenerUp()
 	}
 	sc.runAll(sc.batch(r, senders, 2+r.Intn(4), size))
+	if r.Intn(3) == 0 {
+		sc.reconfStep(r, true, func() { sc.runAll(sc.batch(r, 1, 2, smallSize)) })
+	}
 	sc.runAll(sc.batch(r, 1, 5, smallSize))
 	return sc
 }
@@ -520,12 +594,20 @@ func genSac(r *rand.Rand, gen string, cas int) *scenario {
 	if r.Intn(4) == 0 {
 		outage = r.Intn(rounds)
 	}
+	cfgRound := -1
+	if r.Intn(3) == 0 {
+		cfgRound = r.Intn(rounds)
+	}
 	for k := 0; k < rounds; k++ {
 		sc.runAll(sc.batch(r, senders, 1+r.Intn(4), size))
 		if k == outage {
 			sc.listenerDown()
 			sc.drainN(3)
 			sc.listenerUp()
+		}
+		if k == cfgRound {
+			// the configuration changes while packs are queued: their frames are built afterwards
+			sc.reconfStep(r, true, func() { sc.drainN(2) })
 		}
 		sc.drainN(4)
 	}
@@ -578,18 +660,48 @@ func (sc *scenario) drainAll() {
 // ---------------------------------------------------------------- qfull: bounded queue, sequential
 
 func genQfull(r *rand.Rand, gen string, cas int) *scenario {
-	qcap := 1 + r.Intn(4)
+	qcap := 1 + cas%4
 	sc, err := newScenario(gen, cas, r, scConf{mode: "sac", qcap: qcap})
 	if err != nil {
 		return nil
 	}
 	sc.nsend = 1
-	for k := 0; k < 2+r.Intn(2); k++ {
-		for _, p := range sc.more(r, 0, qcap+r.Intn(3), smallSize) {
-			sc.send(p)
-		}
+	sc.cutDesc = append(sc.cutDesc, fmt.Sprintf("qcap=%d/v%d", qcap, (cas/4)%3))
+	// a backlog exactly at capacity, then one more pack through every entry point
+	sc.fillTo(r, qcap)
+	sc.overflow(r, 3, cas)
+	switch (cas / 4) % 3 {
+	case 0:
+		// drained and filled again
 		sc.drainAll()
+		sc.fillTo(r, qcap)
+		sc.overflow(r, 2+r.Intn(2), cas+1)
+	case 1:
+		// the capacity grows while the backlog is there (by assignment / by ApplyConfig), then shrinks below it
+		grow := qcap + 1 + r.Intn(2)
+		if cas%2 == 0 {
+			sc.reconf("field", sc.curLic, grow, true)
+		} else {
+			sc.reconf("apply", sc.curLic, grow, false)
+			sc.serversBack()
+		}
+		sc.fillTo(r, grow)
+		sc.overflow(r, 3, cas+2)
+		sc.reconf("field", sc.curLic, qcap, true)
+		sc.overflow(r, 3, cas)
+		sc.drainAll()
+		sc.fillTo(r, qcap)
+		sc.overflow(r, 2, cas+1)
+	case 2:
+		// unbounded (capacity <= 0) and bounded again below the backlog
+		sc.reconf("field", sc.curLic, []int{0, -1}[cas%2], true)
+		sc.overflow(r, 3+r.Intn(3), cas)
+		sc.reconf("field", sc.otherLic(r), qcap, true)
+		sc.overflow(r, 3, cas+1)
+		sc.drainAll()
+		sc.overflow(r, qcap+2, cas+2)
 	}
+	sc.drainAll()
 	return sc
 }
 
@@ -637,6 +749,9 @@ func genWorker(r *rand.Rand, gen string, cas int) *scenario {
 	}
 	sc.runAll(sc.batch(r, senders, 2+r.Intn(5), size))
 	sc.waitWorker()
+	if r.Intn(2) == 0 && len(sc.notes) == 0 {
+		sc.reconfStep(r, false, nil) // the worker is idle and holds a connection
+	}
 	sc.runAll(sc.batch(r, senders, 1+r.Intn(4), size))
 	sc.waitWorker()
 	sc.runAll(sc.batch(r, 1, 4, smallSize))
@@ -685,22 +800,188 @@ func genWout(r *rand.Rand, gen string, cas int) *scenario {
 	return sc
 }
 
-// wfull: bounded queue; the worker is parked inside a send while the queue is filled beyond its capacity.
+// wfull: bounded queue; the drainer is busy (parked inside a send, or inside a refused dial during a listener outage)
+// while the backlog reaches the capacity and one more pack comes in through every entry point.
 func genWfull(r *rand.Rand, gen string, cas int) *scenario {
 	qcap := 1 + r.Intn(3)
-	sc, err := newScenario(gen, cas, r, scConf{mode: "worker", qcap: qcap})
+	variant := cas % 3
+	sc, err := newScenario(gen, cas, r, scConf{mode: "worker", qcap: qcap, nondet: variant == 2})
 	if err != nil {
 		return nil
 	}
 	sc.nsend = 1
+	sc.cutDesc = append(sc.cutDesc, fmt.Sprintf("qcap=%d/v%d", qcap, variant))
 	sc.waitWorker()
 	x := sc.more(r, 0, 1, smallSize)[0]
+	if variant < 2 {
+		g, done := sc.parkAt(fmt.Sprintf("built:%d", x.id), func() { sc.send(x) })
+		<-done
+		sc.fillTo(r, qcap)
+		sc.overflow(r, 3, cas)
+		if variant == 1 {
+			// the capacity grows while the worker is parked (it reads neither capacity nor license there)
+			sc.reconf("field", sc.otherLic(r), qcap+1, true)
+			sc.fillTo(r, qcap+1)
+			sc.overflow(r, 3, cas+1)
+		}
+		g.open()
+		sc.waitWorker()
+		sc.runAll(sc.batch(r, 1, 2, smallSize))
+		sc.waitWorker()
+		return sc
+	}
+	// outage: the peer and the listener go away while the worker is parked inside a send; its next dial is refused
+	// and it is parked inside that refusal while the backlog builds up
+	sc.send(sc.more(r, 0, 1, smallSize)[0])
+	sc.waitWorker()
+	kind := []string{"closed", "reset"}[(cas/3)%2]
+	back := sc.addGate("dialfail:1")
 	g, done := sc.parkAt(fmt.Sprintf("built:%d", x.id), func() { sc.send(x) })
 	<-done
-	for _, p := range sc.more(r, 0, qcap+1+r.Intn(2), smallSize) {
-		sc.send(p)
-	}
+	sc.cutCurrent(kind)
+	sc.listenerDown()
 	g.open()
+	for i := 0; ; i++ {
+		err := waitUntil(waitMax, func() bool { return isClosed(back.parked) || sc.workerIdle() })
+		if isClosed(back.parked) {
+			break
+		}
+		if err != nil || i >= 20 {
+			sc.note("the worker never got its refused dial")
+			break
+		}
+		sc.send(sc.more(r, 0, 1, smallSize)[0]) // the kernel swallowed everything so far: one more pack
+	}
+	if len(sc.notes) == 0 {
+		sc.fillTo(r, qcap)
+		sc.overflow(r, 3, cas)
+	}
+	sc.listenerUp()
+	back.open()
 	sc.waitWorker()
+	sc.runAll(sc.batch(r, 1, 2, smallSize))
+	sc.waitWorker()
+	return sc
+}
+
+// ---------------------------------------------------------------- reconf: configuration changes between sends
+
+func genReconf(r *rand.Rand, gen string, cas int) *scenario {
+	mode := []string{"direct", "sac", "worker"}[cas%3]
+	variant := (cas / 3) % 4
+	senders := []int{1, 2, 3}[(cas/3+cas/12)%3]
+	sc, err := newScenario(gen, cas, r, scConf{mode: mode, qcap: 1000, nondet: senders > 1 || mode == "worker"})
+	if err != nil {
+		return nil
+	}
+	sc.nsend = senders
+	sc.cutDesc = append(sc.cutDesc, fmt.Sprintf("v%d", variant))
+	settle := func() {
+		switch mode {
+		case "sac":
+			sc.drainAll()
+		case "worker":
+			sc.waitWorker()
+		}
+	}
+	phase := func(per int) {
+		sc.runAll(sc.batch(r, senders, per, smallSize))
+		settle()
+	}
+	// packs handed over while the server list points away: refused dials (direct: errors; queue: dropped)
+	away := func() {
+		sc.runAll(sc.batch(r, 1, 1+r.Intn(2), smallSize))
+		if mode == "sac" {
+			sc.drainN(4)
+		}
+	}
+	apply := mode != "worker" // the worker's own dials must not meet a half-changed configuration
+	if mode == "worker" {
+		sc.waitWorker()
+	}
+	phase(2 + r.Intn(2))
+	if len(sc.notes) > 0 {
+		return sc
+	}
+	switch variant {
+	case 0:
+		// the default license by assignment: there, back, and to a license that sends also use as their override
+		sc.reconf("field", sc.lics[3], sc.curCap, true)
+		phase(2 + r.Intn(2))
+		sc.reconf("field", sc.lics[0], sc.curCap, true)
+		phase(2)
+		sc.reconf("field", sc.lics[1], sc.curCap, true)
+		phase(2)
+	case 1:
+		// a reloaded configuration with a new license: the connection is dropped, the dial goes nowhere until the
+		// server list is assigned again; then the same back to the first license
+		if apply {
+			sc.reconf("apply", sc.lics[4], 0, false)
+			away()
+			sc.serversBack()
+		} else {
+			sc.reconf("field", sc.lics[4], sc.curCap, true)
+		}
+		phase(3)
+		if apply {
+			sc.reconf("apply", sc.lics[0], 0, false)
+			sc.serversBack()
+		} else {
+			sc.reconf("field", sc.lics[0], sc.curCap, true)
+		}
+		phase(2)
+	case 2:
+		// only the server list changes (re-dial, same license); then the license; then the server list is assigned
+		// away while the connection stays (nothing dials: everything is still delivered)
+		if apply {
+			sc.reconf("apply", sc.curLic, 0, false)
+			sc.serversBack()
+			phase(2)
+		}
+		sc.reconf("field", sc.lics[3], sc.curCap, true)
+		phase(2)
+		if apply {
+			sc.reconf("apply", sc.lics[3], 0, false) // the license it already has
+			sc.serversBack()
+			phase(2)
+			sc.reconf("field", sc.curLic, sc.curCap, false)
+			phase(2)
+			sc.serversBack()
+		}
+		sc.reconf("field", sc.otherLic(r), sc.curCap, true)
+		phase(2)
+	case 3:
+		// the license changes while sends are pending: queued packs are built afterwards (queue modes); a listener
+		// outage around the change (direct)
+		switch mode {
+		case "sac":
+			sc.runAll(sc.batch(r, senders, 2, smallSize))
+			sc.reconf("field", sc.lics[3], sc.curCap, true)
+			sc.runAll(sc.batch(r, senders, 1, smallSize))
+			sc.drainAll()
+			sc.runAll(sc.batch(r, senders, 2, smallSize))
+			sc.reconf("apply", sc.lics[4], 0, false)
+			sc.serversBack()
+			sc.drainAll()
+		case "worker":
+			x := sc.more(r, 0, 1, smallSize)[0]
+			g, done := sc.parkAt(fmt.Sprintf("built:%d", x.id), func() { sc.send(x) })
+			<-done
+			sc.runAll(sc.batch(r, senders, 2, smallSize))
+			sc.reconf("field", sc.lics[3], sc.curCap, true) // the worker is parked: it reads the license after its release
+			g.open()
+			sc.waitWorker()
+		default:
+			sc.listenerDown()
+			sc.reconf("field", sc.lics[3], sc.curCap, true)
+			phase(1 + r.Intn(2))
+			sc.reconf("apply", sc.lics[4], 0, false)
+			sc.listenerUp()
+			away()
+			sc.serversBack()
+		}
+		phase(3)
+	}
+	phase(2)
 	return sc
 }
